@@ -8,6 +8,8 @@ from .. import paths
 from ..core import FUNC, call_attr, calls_in, const, dotted, is_const, kwarg, norm, text, walk_local
 
 EXPLANATION = [
+    "C12.discovery-exits: no exit of Client.discover_descriptors / discover_attributes depends on sizes (MTU, len(...)): the loops end on the server's answers only.",
+    'C12.total-mappers: shared with C10: display mappers are total (a Find Information Response with 128-bit UUIDs must format, or it is never sent).',
     'C12.included-first: Server.add_service registers unregistered included services before it adds its own service declaration; add_services skips services already registered.',
     'C12.space-after-match: in on_att_find_by_type_value_request the response room is decremented only after attributes.append(...) in the same block (consumed by reported entries, not by examined candidates).',
     'C12.copy-update: in the GATT modules no container looked up in a table is replaced by a rebuilt copy bound to the local only (`subs = subs - {s}`): the table keeps the old object and the unsubscribe is lost.',
@@ -810,7 +812,34 @@ def included_first(ctx):
     R.check(ok, rule, f'{SRV}.add_services', 'skips services that are already registered', 'add_services registers a service again that was already registered as an included service: its attributes exist twice', p.loc(fs))
 
 
+def total_mappers_rule(ctx):
+    from .c10 import total_mappers_rule as shared
+    shared(ctx, 'C12.total-mappers')
+
+
+def discovery_exits(ctx):
+    """The Find Information loops of the client end on what the server says (error response, empty response, end of the
+    handle range), never on an estimate of how full the last response was: the server also ends a response where the UUID
+    width changes, so "there was room left" does not mean "there is nothing more"."""
+    R, p = ctx.r, ctx.p
+    rule = 'C12.discovery-exits'
+    n = 0
+    for name in ('discover_descriptors', 'discover_attributes'):
+        fn = p.find(f'{CLI}.{name}')
+        if fn is None:
+            R.bad(rule, f'{CLI}.{name}', 'anchor missing')
+            continue
+        for b in [x for x in walk_local(fn) if isinstance(x, (ast.Break, ast.Return))]:
+            n += 1
+            g = [norm(t) for t, pol in paths.flat_guards(b, stop=fn)]
+            sized = [t for t in g if 'mtu' in t.lower() or 'len(' in t]
+            R.check(not sized, rule, f'{CLI}.{name} | exit at line {b.lineno - fn.lineno}', 'decided by the server\'s answer', f'{name} stops when `{sized[0] if sized else ""}`: a response that ends early because the next attribute has another UUID width is taken for the last one - the descriptors behind it (the CCCD after a 128-bit descriptor) are never discovered and subscribe() silently does nothing', p.loc(b))
+    R.check(n >= 4, rule, f'{CLI} | Find Information loops', f'{n} exits', f'only {n} exits found')
+
+
 RULES = [
+    ('C12.discovery-exits', discovery_exits),
+    ('C12.total-mappers', total_mappers_rule),
     ('C12.included-first', included_first),
     ('C12.space-after-match', space_after_match),
     ('C12.copy-update', copy_update_rule),
